@@ -304,10 +304,12 @@ Definition c03_job_ok (k : ccase) (j : jinfo) : bool :=
   (* (a) a pod set that received a bind reaches its minimum *)
   forallb (fun pm => let '(ps, minav) := pm in
              let l := pset_tis ps in
-             (* a pod bound and then evicted again in the same cycle ends evicted *)
-             let nb := count (fun ti => in_pos (tid ti) bound && negb (in_pos (tid ti) ev)) l in
+             (* a pod bound and then evicted again in the same cycle ends evicted - unless the same cycle
+                re-places it (consolidation / consolidating reclaim): then it is moved, not lost, as in (c) *)
+             let lost := filter (fun p => negb (in_pos p piped)) ev in
+             let nb := count (fun ti => in_pos (tid ti) bound && negb (in_pos (tid ti) lost)) l in
              (nb =? 0) ||
-             (minav <=? count (fun ti => active0 ti && negb (in_pos (tid ti) ev)) l + nb)) (j_psets j)
+             (minav <=? count (fun ti => active0 ti && negb (in_pos (tid ti) lost)) l + nb)) (j_psets j)
   (* (b) nothing is bound for a job one of whose pod sets is nominated below its minimum *)
   && (let has_bind := 0 <? count (fun ti => in_pos (tid ti) bound) tis in
       let partial := existsb (fun pm => let '(ps, minav) := pm in
